@@ -218,7 +218,13 @@ def run(ctx):
             _, _, stderr = run_driver(ctx, name + "-race", binp, args, timeout=3000)
             races += race_reports(ctx, name, stderr)
 
+    # pooled rpc call states: a streaming call freed by a second goroutine while the first one waits in Response, followed by
+    # ordinary calls that draw the same pooled objects (scripts of SvcCall.tla)
+    from vlib import svcfam
+    _, sfiles = svcfam.scripts(ctx, free=True)
+    fsum = svcfam.run_rpc(ctx, sfiles[1:], 1500 if ctx.quick() else 30000)
     ctx.coverage = {
+        "rpc_calls_freed_while_in_use": {"model": "SvcCall.tla (WithFree)", "executed": fsum["scripts"], "generated": fsum["of"]},
         "states": states, "transitions": trans, "traces_validated_against_impl": len(traces), "pool_events": events,
         "acquisitions_by_pool": acquisitions, "distinct_objects_by_trace": objs, "writer_programs_run_concurrently": programs,
         "driver_findings": findings_total, "race_reports_in_module": races,
